@@ -146,4 +146,199 @@ theorem expandList_cons {x : Item} {xs : List Item} {vs : List Val}
     simp only [Option.some.injEq] at h
     exact ⟨a, b, ha, hb, h.symm⟩
   · cases h
+/-! ### the iterator on a flat layout -/
+
+/-- the pointer `p` (a suffix of some cell list) points to the value `v` -/
+inductive Denotes : List Cell → Val → Prop
+  | sc (c : Cell) (rest : List Cell) : c.isScalar = true → Denotes (c :: rest) (.sc c)
+  | arr (ety : UInt8) (es : List Item) (vs : List Val) (rest : List Cell) :
+      expandList es = some vs →
+      Denotes (.arr ety (flatList es).length :: (flatList es ++ rest)) (.arr ety vs)
+
+/-- The iterator `it`, walking a list of `size` cells, still has to yield exactly `vals`. -/
+def Cur (it : Itr) (size : Nat) (vals : List Val) : Prop :=
+  (vals = [] ∧ it.i = size ∧ it.rangeI = 0) ∨
+  ∃ (x : Item) (rest : List Item) (tail : List Cell) (k : Nat) (vx vrest : List Val),
+    Shape x vx ∧ expandList rest = some vrest ∧ k < vx.length ∧ (k = 0 ∨ x.isRange = true) ∧
+    it.i + (x.flat ++ flatList rest).length = size ∧
+    it.av = x.flat ++ flatList rest ++ tail ∧ it.rangeI = k ∧ vals = vx.drop k ++ vrest
+
+theorem cur_at (rest : List Item) (tail : List Cell) (i size : Nat) (vrest : List Val)
+    (h : expandList rest = some vrest) (hs : i + (flatList rest).length = size) :
+    Cur ⟨flatList rest ++ tail, i, 0⟩ size vrest := by
+  cases rest with
+  | nil =>
+    simp only [expandList, Option.some.injEq] at h
+    subst h
+    left; simp [flatList] at hs; simp [hs]
+  | cons x xs =>
+    obtain ⟨vx, vr, hx, hxs, hv⟩ := expandList_cons h
+    right
+    refine ⟨x, xs, tail, 0, vx, vr, expand_shape hx, hxs, (expand_shape hx).length_pos, Or.inl rfl, ?_, ?_, rfl, ?_⟩
+    · simpa [flatList] using hs
+    · simp [flatList]
+    · simp [hv]
+
+theorem cur_init (xs : List Item) (tail : List Cell) (vs : List Val) (h : expandList xs = some vs) :
+    Cur (Itr.init (flatList xs ++ tail)) (flatList xs).length vs :=
+  cur_at xs tail 0 _ vs h (by simp)
+
+theorem Cur.nil_i {it : Itr} {size : Nat} (h : Cur it size []) : it.i = size := by
+  rcases h with ⟨_, h, _⟩ | ⟨x, rest, tail, k, vx, vrest, hs, _, hk, _, _, _, _, hv⟩
+  · exact h
+  · exfalso
+    have : (vx.drop k ++ vrest).length = 0 := by rw [← hv]; rfl
+    simp at this; omega
+
+theorem asRange_scalar {c : Cell} (h : c.isScalar = true) : c.asRange = none := by
+  cases c <;> simp [Cell.isScalar] at h <;> rfl
+theorem asArr_scalar {c : Cell} (h : c.isScalar = true) : c.asArr = none := by
+  cases c <;> simp [Cell.isScalar] at h <;> rfl
+
+/-- one step of the iterator at a position that still has a value to yield -/
+theorem cur_step {it : Itr} {size : Nat} {v : Val} {vs : List Val} (h : Cur it size (v :: vs)) :
+    it.i < size ∧
+    (∃ c, deref it.av = .ok c ∧ ∀ num hd, c.asRange = some (num, hd) → num ≠ 0) ∧
+    (∃ p, it.get = .ok p ∧ Denotes p v) ∧
+    (∃ it', it.next = .ok it' ∧ Cur it' size vs) := by
+  rcases h with ⟨h, _⟩ | ⟨x, rest, tail, k, vx, vrest, hs, hrest, hk, hk0, hsz, hav, hri, hv⟩
+  · cases h
+  obtain ⟨av, i, ri⟩ := it
+  simp only at hsz hav hri
+  have hri' : k = ri := hri.symm
+  subst hav hri'
+  have hdrop : vx.drop k = vx[k] :: vx.drop (k + 1) := List.drop_eq_getElem_cons hk
+  rw [hdrop, List.cons_append, List.cons.injEq] at hv
+  obtain ⟨hv1, hv2⟩ := hv
+  have hlen : 0 < x.flat.length := List.length_pos_iff.mpr x.flat_ne_nil
+  refine ⟨by simp only [List.length_append] at hsz; show i < size; omega, ?_⟩
+  subst hv1 hv2
+  cases hs with
+  | val c hc =>
+    have hk' : k = 0 := by simpa using hk
+    subst hk'
+    simp only [Item.flat, List.cons_append, List.nil_append, List.length_cons] at hsz ⊢
+    refine ⟨⟨c, rfl, by simp [asRange_scalar hc]⟩, ⟨c :: (flatList rest ++ tail), ?_, Denotes.sc c _ hc⟩, ?_⟩
+    · simp [Itr.get, deref, asRange_scalar hc, bind, Except.bind, pure, Except.pure]
+    · refine ⟨⟨flatList rest ++ tail, i + 1, 0⟩, ?_, ?_⟩
+      · simp [Itr.next, deref, asRange_scalar hc, asArr_scalar hc, bind, Except.bind, pure, Except.pure]
+      · simp only [List.drop_succ_cons, List.drop_nil, List.nil_append]
+        exact cur_at rest tail (i + 1) size vrest hrest (by omega)
+  | arr ety es ves hes =>
+    have hk' : k = 0 := by simpa using hk
+    subst hk'
+    simp only [Item.flat, List.cons_append, List.length_cons, List.length_append] at hsz ⊢
+    refine ⟨⟨_, rfl, by simp [Cell.asRange]⟩,
+      ⟨.arr ety (flatList es).length :: (flatList es ++ (flatList rest ++ tail)), ?_, Denotes.arr ety es ves _ hes⟩, ?_⟩
+    · simp [Itr.get, deref, Cell.asRange, bind, Except.bind, pure, Except.pure]
+    · refine ⟨⟨flatList rest ++ tail, i + (flatList es).length + 1, 0⟩, ?_, ?_⟩
+      · simp [Itr.next, deref, Cell.asRange, Cell.asArr, bind, Except.bind, pure, Except.pure]
+      · simp only [List.drop_succ_cons, List.drop_nil, List.nil_append]
+        exact cur_at rest tail _ size vrest hrest (by omega)
+  | repVal n c hn hc =>
+    simp only [List.length_replicate] at hk
+    simp only [Item.flat, List.cons_append, List.nil_append, List.length_cons] at hsz ⊢
+    refine ⟨⟨_, rfl, by simp [Cell.asRange]; omega⟩,
+      ⟨c :: (flatList rest ++ tail), ?_, by simp only [List.getElem_replicate]; exact Denotes.sc c _ hc⟩, ?_⟩
+    · simp [Itr.get, deref, Cell.asRange, bind, Except.bind, pure, Except.pure]
+    · by_cases hlast : k + 1 < n
+      · refine ⟨⟨.rep n 0 :: c :: (flatList rest ++ tail), i, k + 1⟩, ?_, ?_⟩
+        · have h1 : ¬ ((n : Int) ≤ (k : Int) + 1 ∧ ¬ n = 0) := by omega
+          simp [Itr.next, deref, Cell.asRange, bind, Except.bind, pure, Except.pure, h1]
+        · right
+          exact ⟨.rep n (.val c), rest, tail, k + 1, _, vrest, Shape.repVal n c hn hc, hrest,
+            by simpa using hlast, Or.inr rfl, by simp [Item.flat]; omega, by simp [Item.flat], rfl, rfl⟩
+      · refine ⟨⟨flatList rest ++ tail, i + 2, 0⟩, ?_, ?_⟩
+        · have h1 : ((n : Int) ≤ (k : Int) + 1 ∧ ¬ n = 0) := by omega
+          simp [Itr.next, deref, Cell.asRange, asArr_scalar hc, bind, Except.bind, pure, Except.pure, h1]
+        · rw [List.drop_eq_nil_of_le (by simp; omega)]
+          exact cur_at rest tail _ size vrest hrest (by omega)
+  | repArr n ety es ves hn hes =>
+    simp only [List.length_replicate] at hk
+    simp only [Item.flat, List.cons_append, List.length_cons, List.length_append] at hsz ⊢
+    refine ⟨⟨_, rfl, by simp [Cell.asRange]; omega⟩,
+      ⟨.arr ety (flatList es).length :: (flatList es ++ (flatList rest ++ tail)), ?_,
+        by simp only [List.getElem_replicate]; exact Denotes.arr ety es ves _ hes⟩, ?_⟩
+    · simp [Itr.get, deref, Cell.asRange, bind, Except.bind, pure, Except.pure]
+    · by_cases hlast : k + 1 < n
+      · refine ⟨⟨.rep n 0 :: .arr ety (flatList es).length :: (flatList es ++ (flatList rest ++ tail)), i, k + 1⟩, ?_, ?_⟩
+        · have h1 : ¬ ((n : Int) ≤ (k : Int) + 1 ∧ ¬ n = 0) := by omega
+          simp [Itr.next, deref, Cell.asRange, bind, Except.bind, pure, Except.pure, h1]
+        · right
+          exact ⟨.rep n (.arr ety es), rest, tail, k + 1, _, vrest, Shape.repArr n ety es ves hn hes, hrest,
+            by simpa using hlast, Or.inr rfl, by simp [Item.flat]; omega, by simp [Item.flat], rfl, rfl⟩
+      · refine ⟨⟨flatList rest ++ tail, i + 1 + (flatList es).length + 1, 0⟩, ?_, ?_⟩
+        · have h1 : ((n : Int) ≤ (k : Int) + 1 ∧ ¬ n = 0) := by omega
+          simp [Itr.next, deref, Cell.asRange, Cell.asArr, bind, Except.bind, pure, Except.pure, h1]
+        · rw [List.drop_eq_nil_of_le (by simp; omega)]
+          exact cur_at rest tail _ size vrest hrest (by omega)
+  | range n d s vx hn hd hs' hl hr =>
+    rw [hl] at hk
+    obtain ⟨v, hv, hvk⟩ := hr k hk
+    have hvk' : vx[k] = .sc v := by
+      have := List.getElem?_eq_getElem (l := vx) (i := k) (by omega)
+      rw [this] at hvk; simpa using hvk
+    simp only [Item.flat, List.cons_append, List.nil_append, List.length_cons] at hsz ⊢
+    refine ⟨⟨_, rfl, by simp [Cell.asRange]; omega⟩,
+      ⟨[v], ?_, by rw [hvk']; exact Denotes.sc v _ (rangeVal_scalar hv)⟩, ?_⟩
+    · simp [Itr.get, deref, Cell.asRange, rangeArg, hv, bind, Except.bind, pure, Except.pure]
+    · by_cases hlast : k + 1 < n
+      · refine ⟨⟨.rep n 1 :: d :: s :: (flatList rest ++ tail), i, k + 1⟩, ?_, ?_⟩
+        · have h1 : ¬ ((n : Int) ≤ (k : Int) + 1 ∧ ¬ n = 0) := by omega
+          simp [Itr.next, deref, Cell.asRange, bind, Except.bind, pure, Except.pure, h1]
+        · right
+          exact ⟨.range n d s, rest, tail, k + 1, _, vrest, Shape.range n d s vx hn hd hs' hl hr, hrest,
+            by omega, Or.inr rfl, by simp [Item.flat]; omega, by simp [Item.flat], rfl, rfl⟩
+      · refine ⟨⟨flatList rest ++ tail, i + 3, 0⟩, ?_, ?_⟩
+        · have h1 : ((n : Int) ≤ (k : Int) + 1 ∧ ¬ n = 0) := by omega
+          simp [Itr.next, deref, Cell.asRange, asArr_scalar hs', bind, Except.bind, pure, Except.pure, h1]
+        · rw [List.drop_eq_nil_of_le (by omega)]
+          exact cur_at rest tail _ size vrest hrest (by omega)
+
+theorem Cur.i_le {it : Itr} {size : Nat} {vals : List Val} (h : Cur it size vals) : it.i ≤ size := by
+  cases vals with
+  | nil => exact Nat.le_of_eq h.nil_i
+  | cons v vs => exact Nat.le_of_lt (cur_step h).1
+
+theorem sideDone_cur {it : Itr} {size : Nat} {vals : List Val} (h : Cur it size vals) :
+    sideDone it size = .ok vals.isEmpty := by
+  cases vals with
+  | nil => simp [sideDone, h.nil_i, pure, Except.pure]
+  | cons v vs =>
+    obtain ⟨hi, ⟨c, hc, hnum⟩, _, _⟩ := cur_step h
+    have : ¬ it.i = size := by omega
+    simp only [sideDone, this, ↓reduceIte, hc, bind, Except.bind, List.isEmpty_cons]
+    cases hr : c.asRange with
+    | none => simp [pure, Except.pure]
+    | some nh =>
+      obtain ⟨num, hd⟩ := nh
+      have := hnum num hd hr
+      simp [pure, Except.pure, this]
+
+theorem eqAfterAbort_cur {l r : Itr} {ls rs : Nat} {vl vr : List Val} (hl : Cur l ls vl)
+    (hr : Cur r rs vr) : eqAfterAbort l r ls rs = .ok (vl.isEmpty && vr.isEmpty) := by
+  simp only [eqAfterAbort, sideDone_cur hl, sideDone_cur hr, bind, Except.bind]
+  cases vl.isEmpty <;> simp [pure, Except.pure]
+
+theorem hasNext_cur {l r : Itr} {ls rs : Nat} {vl vr : List Val} (hl : Cur l ls vl)
+    (hr : Cur r rs vr) : hasNext l r ls rs = .ok (!vl.isEmpty && !vr.isEmpty) := by
+  cases vl with
+  | nil => simp [hasNext, hl.nil_i, pure, Except.pure]
+  | cons v vs =>
+    obtain ⟨hi, ⟨c, hc, hnum⟩, _, _⟩ := cur_step hl
+    cases vr with
+    | nil => simp [hasNext, hi, hr.nil_i, pure, Except.pure]
+    | cons w ws =>
+      obtain ⟨hi', ⟨c', hc', hnum'⟩, _, _⟩ := cur_step hr
+      simp only [hasNext, hi, hi', ↓reduceIte, hc, hc', bind, Except.bind, List.isEmpty_cons]
+      cases h1 : c.asRange with
+      | none => simp [pure, Except.pure]
+      | some nh =>
+        obtain ⟨num, hd⟩ := nh
+        cases h2 : c'.asRange with
+        | none => simp [pure, Except.pure]
+        | some nh' =>
+          obtain ⟨num', hd'⟩ := nh'
+          have := hnum num hd h1
+          simp [pure, Except.pure, this]
 end Rtosc.ArgVal
